@@ -1432,7 +1432,6 @@ class BandlimitedClickFactory(FixedWaveform):
 ################################################################################
 # Wavfiles
 ################################################################################
-@fast_cache
 def load_wav(fs, filename, level=None, calibration=None, normalization=None):
     '''
     Load wav file, scale, and resample
@@ -1458,6 +1457,16 @@ def load_wav(fs, filename, level=None, calibration=None, normalization=None):
         matches the target level. If `'rms'`, rescales so that the RMS value of
         the waveform matches the target level.
     '''
+    # The result is memoised on the scaling factor, not on the calibration
+    # object: a calibration can change after it was used (set_fixed_gain).
+    sf = None
+    if calibration is not None:
+        sf = np.float64(calibration.get_sf(1e3, level))
+    return _load_wav(fs, filename, sf, normalization)
+
+
+@fast_cache
+def _load_wav(fs, filename, sf, normalization):
     log.warning('Loading %s', filename)
     file_fs, waveform = wavfile.read(filename, mmap=True)
 
@@ -1476,8 +1485,7 @@ def load_wav(fs, filename, level=None, calibration=None, normalization=None):
     else:
         raise ValueError(f'Unrecognized normalization: {normalization}')
 
-    if calibration is not None:
-        sf = calibration.get_sf(1e3, level)
+    if sf is not None:
         waveform *= sf
 
     # Resample if sampling rate does not match
